@@ -992,6 +992,15 @@ def c16(tier, seed):
     # ratios 0, 1/2, 1, 2 (the limit-order probability is the order ratio times the market-order probability), heavy tails included
     ck.traces_stage("agents_momentum_saturated", "record_agents", dict(base, kinds=["momentum"], saturate=True, max_steps=18, probs=[0.0, 0.3], sigmas=[1.0, 10.0]),
                     files=4 if q else 16, runs=100 if q else 200, ops=0, trace_spec="AgentTrace", consts={})
+    # the public helper functions the noise and momentum agents are made of (agents::common), called directly with a mid-price and
+    # a sampled distance of the harness's choosing: distance 0, distances beyond the mid-price, both ends of the price range,
+    # half-integer mid-prices, ticks 1..10, 25, 1000, scripted boundary draws for the cancellation helper (HelperTrace.tla)
+    ck.traces_stage("agent_helpers", "record_helpers", {"calls": 40}, files=8 if q else 32, runs=60 if q else 200, ops=0,
+                    trace_spec="HelperTrace", consts={})
+    if any(st["stage"] == "agent_helpers" for st in ck.stages):
+        for k in ("quote_calls", "cancel_live_calls_with_active_orders", "sell_beyond_the_price_range", "quotes_at_distance_zero"):
+            if not ck.features.get("agent_helpers." + k):
+                raise ToolError("C16 agent_helpers: vacuous - no " + k)
     # the same relations inside complete simulations (mixed agent sets on one environment, through the real runners); here TLC
     # derives what the agent could observe from its own specification state instead of taking it from the recorder
     sim_traces(ck, "agents_in_simulations", files=6 if q else 48, runs=4 if q else 8, steps=30 if q else 100)
